@@ -672,6 +672,9 @@ func (c *Ctx) c05Encode(s *SuiteStat, sx *Sx, idx int) callRes {
 	if er.String() != ref.String() {
 		bad("encode-not-rfc", "Encode differs from the independent RFC 7296 encoder (canonical liberties)", ref.String(), er.String())
 	}
+	if rr := encodeReused(buildMsg(sx)); rr.String() != ref.String() {
+		bad("encode-not-rfc:reused-message-object", "Encode of a message object that was used for other messages before (fields and payload list reassigned) differs from the independent RFC 7296 encoder (replay: re-run of the suite with this seed)", ref.String(), rr.String())
+	}
 	if er.kind != "ok" {
 		return er
 	}
